@@ -629,7 +629,8 @@ void do_nodename(const ev::Cmd& c) {
     const long id = c.i("id");
     const std::string raw = unhex(c.s("raw").substr(1));
     static std::unique_ptr<Node> n;
-    if (!n) n = std::make_unique<Node>(ev::id32(77, 0xA0), node_config(0x3131u));
+    static long used = 0;
+    if (!n || ++used % 500 == 0) n = std::make_unique<Node>(ev::id32(77, 0xA0), node_config(0x3131u));   // a fresh node now and then: the store only grows
     auto recorded = [&](const protocol::Manifest& m, bool& has) {
         const auto round = protocol::decode_manifest(protocol::encode_manifest(m));      // as issued: the URI
         auto it = round.metadata.find("filename");
